@@ -26,7 +26,9 @@ RES = {  # name -> (pdgid, spin class, decays to)
 }
 LS_TAGS = ["GSpline.EFF", "kMatrix.pole.1", "kMatrix.prod.0", "FOCUS.Kpi", "FOCUS.I32", "BW", "LASS.x"]
 NUM_SPELL = ["1", "0", "0.648936", "-0.271637", "2.01551", "-2.96395", "3.01374", "0.0205762", "1e-3", "-1.5E+0", "+0.25",
-             "0.5", "1.25", "-0.75", "2", "0.123456789"]
+             "0.5", "1.25", "-0.75", "2", "0.123456789",
+             # past 2 pi, past 180 and 360, large and tiny: a number is read as written whatever its size
+             "7.5", "-9.25", "131.6", "-360", "1e4", "-1e-7", "6.2831853"]
 
 
 def val(sp: str) -> float:
